@@ -110,3 +110,13 @@ func init() {
 		fmt.Print(mgen.Generate(seed, mgen.DefaultFeatures()).Text)
 	}
 }
+
+func init() {
+	devExtra["torture"] = func(args []string) {
+		var seed int64 = 1
+		if len(args) > 0 {
+			fmt.Sscan(args[0], &seed)
+		}
+		fmt.Print(tortureModule(seed))
+	}
+}
